@@ -3,6 +3,7 @@ import Posmint.Driver.KV
 import Posmint.Driver.Chain
 import Posmint.Driver.RM
 import Posmint.Driver.Codec
+import Posmint.Driver.Keys
 /-!
 `posmodel <family>`: reads one operation per line on stdin, prints one observation per line.
 Core-only (no Mathlib) so it links as a native executable.
@@ -30,5 +31,6 @@ def main (args : List String) : IO UInt32 := do
   | ["chain"] => loopState stdin stdout stepChain { st := none }; return 0
   | ["rm"] => loopState stdin stdout stepRM rmEmpty; return 0
   | ["codec"] => loopState stdin stdout stepCodec { sendPrefix := [] }; return 0
+  | ["keys"] => loopState stdin stdout stepKeys { kb := [], armors := [] }; return 0
   | ["kv"] => loopState stdin stdout stepKV (newProg 0); return 0
   | _ => IO.eprintln "usage: posmodel <arith|kv>"; return 2
